@@ -97,7 +97,7 @@ func checkAgainstModel(c *mon.Ctx, prop string, a *model.Claims, g *model.Gen, s
 }
 
 func runC01(c *mon.Ctx) {
-	c.Rule("cases = abstract claims-sets: (a) exhaustive single-claim sweeps over every value class of every claim (byte lengths 0..80 and lengths congruent to the legal ones modulo 2^8 / 2^16 such as 288, 289, 304, 320, 65568, UEID type byte 0..255, full single-edit neighbourhood of both certification-reference formats, 80 component-field combinations) on an otherwise valid random set, (b) all claim pairs x sampled class pairs, (c) triples and random products, (d) history independence: a valid object is validated and read, rewritten IN PLACE to a single-claim variant (fields overwritten, components edited through the pointers the getter handed out), observed, rewritten back, observed; each case is realised by direct field assignment, by CBOR decoding and by JSON decoding (with unrelated unknown members) and Validate + all getters are compared with the reference predicate. distinct_nontrivial = distinct (profile, claim=class...) signatures that deviate from the all-valid vector")
+	c.Rule("cases = abstract claims-sets: (a) exhaustive single-claim sweeps over every value class of every claim (byte lengths 0..80 and lengths congruent to the legal ones modulo 2^8 / 2^16 such as 288, 289, 304, 320, 65568, UEID type byte 0..255, full single-edit neighbourhood of both certification-reference formats, 80 component-field combinations) on an otherwise valid random set, (b) all claim pairs x sampled class pairs, (c) triples and random products, (d) history independence: a valid object is validated and read, rewritten IN PLACE to a single-claim variant (fields overwritten, components edited through the pointers the getter handed out), observed, rewritten back, observed; each case is realised by direct field assignment, by CBOR decoding and by JSON decoding (with unrelated unknown members) and Validate + all getters are compared with the reference predicate. The profile-2 profile classes contain every near-miss spelling of the canonical name that an eat.Profile can hold verbatim (host case, port, query, fragment, user-info, path variants); half of the generated certification references are drawn from three fixed digit strings so that the same reference recurs across objects and profiles within one process. distinct_nontrivial = distinct (profile, claim=class...) signatures that deviate from the all-valid vector")
 	g := model.NewGen(c.Seed*977 + int64(c.Shard))
 	idx := 0
 	// (a) exhaustive sweeps
